@@ -6,12 +6,13 @@ FUNCTIONS = [('typing', 'global_variables.__call__'), ('typing', 'global_variabl
              ('devices', 'PRBS'), ('devices', 'DAC'), ('devices', 'LASER'), ('devices', 'PM'), ('devices', 'MZM'), ('devices', 'EDFA'),
              ('devices', 'SAMPLER'), ('devices', 'DM'), ('devices', 'FIBER'), ('devices', 'LPF'), ('devices', 'BPF'), ('devices', 'PD'),
              ('devices', 'ADC'), ('ppm', 'PPM_ENCODER'), ('ppm', 'PPM_DECODER'), ('ppm', 'HDD'), ('ppm', 'SDD'),
-             ('ppm', 'BER_analizer'), ('ook', 'BER_analizer'), ('ppm', 'THRESHOLD_EST'), ('ook', 'THRESHOLD_EST')]
+             ('ppm', 'BER_analizer'), ('ook', 'BER_analizer'), ('ppm', 'DSP')]
 BOUNDS = {'grid step': 'one gv(...) call with every subset of {sps, R, fs, wavelength, N} (+ a custom keyword) or one clean(), from an arbitrary '
                        'consistent pre-state: pre sps in {1,2}, pre N in {None,1,2}, new sps in {1,3}, fs = R*k with k in {2,3}, new N in {1,2}; '
                        'R, fs, wavelengths and the custom value are symbolic reals. The invariant is inductive, so histories of any length are covered.',
           'purity sweep': 'each listed public function on symbolic inputs in its smallest configuration (N*sps <= 8; filters on 17-sample records)'}
 OUTSIDE = ['GET_EYE and the functions that need it (ook.DSP, ppm.DSP with estimated threshold): KMeans/KDE are outside the model',
+           'the purity sweep of the THRESHOLD_EST / theory_BER helpers (pure formulas over their arguments; their values are the subject of C13)',
            'hidden state inside numpy/scipy themselves', 'incommensurate rates (fs/R not an integer) — excluded by the property']
 ASSUMPTIONS = ['np.random.seed(s) restarts the draw stream and the same seed replays the same draws (stub contract)',
                'commensurate rates: whenever R and fs are both in force after a call, fs = R*k for an integer k >= 1']
@@ -321,6 +322,20 @@ def _cases(env):
         x = _cx_field(env, T, 17, 1, True)
         return (x, env.const('0.5e9'), env.real('r', 0.1, 1), env.real('Rl', 10, 100)), lambda a: D.PD(a[0], a[1], r=a[2], R_load=a[3])
 
+    def c_adc():
+        x = T.electrical_signal(list(env.reals('s', 3, -3, 3)), list(env.reals('w', 3, -1, 1)))
+        return (x,), lambda a: D.ADC(a[0], n=2, otype='v')
+
+    def c_dsp(decision):
+        def f():
+            T.gv(sps=2, R=one)
+            x = T.electrical_signal(list(env.reals('s', 8, 0, 3)), list(env.reals('w', 8, -0.1, 0.1)))
+            thr = env.real('thr', 0.5, 2)
+            if decision == 'soft':
+                return (x,), lambda a: P.DSP(a[0], 2, decision='soft')
+            return (x, thr), lambda a: P.DSP(a[0], 2, decision='hard', threshold=a[1])
+        return f
+
     def c_utils():
         x = env.real('x', 0.1, 10)
         arr = env.arr([x, x + 1])
@@ -329,7 +344,7 @@ def _cases(env):
     return {'PRBS': c_prbs, 'DAC-nrz': c_dac('nrz'), 'DAC-rz': c_dac('rz'), 'LASER': c_laser, 'PM': c_pm, 'MZM': c_mzm, 'EDFA': c_edfa,
             'SAMPLER': c_sampler(True), 'SAMPLER-clean': c_sampler(False), 'SAMPLER-of-DAC': c_sampler_dac, 'slices-clean': c_slices, 'PPM_ENCODER': c_enc, 'PPM_DECODER': c_dec, 'HDD': c_hdd, 'SDD': c_sdd,
             'ook.BER_analizer': c_ber(O), 'ppm.BER_analizer': c_ber(P), 'DM': c_dm, 'FIBER': c_fiber, 'LPF': c_lpf, 'BPF': c_bpf, 'PD': c_pd,
-            'utils-dB-Q': c_utils}
+            'utils-dB-Q': c_utils, 'ADC': c_adc, 'ppm.DSP-soft': c_dsp('soft'), 'ppm.DSP-hard-threshold': c_dsp('hard')}
 
 
 def scen_purity(env, cfg):
@@ -386,7 +401,7 @@ def configs(tier):
         out.append((f'gv-step-pre(sps{s0},N{N0})-call(custom)', scen_gv_step, dict(s0=s0, N0=N0, pattern=('custom',), s1=3, k=3, N1=1), {}))
     out.append(('gv-history-stale-grid', scen_history, dict(s0=2, N0=2, s1=3), {}))
     fns = ['PRBS', 'DAC-nrz', 'DAC-rz', 'LASER', 'PM', 'MZM', 'EDFA', 'SAMPLER', 'SAMPLER-clean', 'SAMPLER-of-DAC', 'slices-clean', 'DM', 'FIBER', 'LPF', 'BPF', 'PD', 'PPM_ENCODER', 'PPM_DECODER', 'HDD', 'SDD',
-           'ook.BER_analizer', 'ppm.BER_analizer', 'utils-dB-Q']
+           'ook.BER_analizer', 'ppm.BER_analizer', 'utils-dB-Q', 'ADC', 'ppm.DSP-soft', 'ppm.DSP-hard-threshold']
     for fn in fns:
         out.append((f'purity-{fn}', scen_purity, dict(fn=fn), {}))
     return out
